@@ -27,6 +27,7 @@ type vfC07Cfg struct {
 	Pk        string              `json:"pk"`     // hex
 	Redir     string              `json:"redir"`
 	DB        bool                `json:"db"` // DatabasePath set (a fresh bolt file holding Users)
+	DBBad     bool                `json:"dbbad"` // DatabasePath set to a file in a directory that does not exist
 	Users     []vfC09UserSpec     `json:"users"`
 	KeepAlive int                 `json:"keepalive"`
 	Cnc       bool                `json:"cnc"`
@@ -51,7 +52,9 @@ func (c *vfC07Cfg) raw(dbPath string) RawConfig {
 func (c *vfC07Cfg) initState(nowNs int64, dir string) (*State, error) {
 	ws := common.WorldState{Rand: vfC07RandReader{}, Now: func() time.Time { return time.Unix(0, nowNs) }}
 	dbPath := ""
-	if c.DB {
+	if c.DBBad {
+		dbPath = filepath.Join(dir, "no-such-directory", "users.db")
+	} else if c.DB {
 		vfC07DBSeq++
 		dbPath = filepath.Join(dir, fmt.Sprintf("init%d.db", vfC07DBSeq))
 		m, err := usermanager.MakeLocalManager(dbPath, ws)
